@@ -29,6 +29,14 @@ MUTANTS = [
      "                Path(path, 0),\n                item_type,\n                inner_coercer,\n            )\n            for index, item in enumerate(result)"),
     ("alias-ignored", ["C01"], "tartiflette/execution/collect.py",
      "    return node.alias.value if node.alias else node.name.value", "    return node.name.value"),
+    ("shared-errors-list", ["C15"], "tartiflette/execution/context.py",
+     "        self.errors: List[\"TartifletteError\"] = []", "        self.errors: List[\"TartifletteError\"] = _SHARED_ERRORS\n\n\n_SHARED_ERRORS = []\n\n\nclass _Unused:\n    def _unused(self):\n        pass"),
+    ("cached-errors-mutated", ["C16"], "tartiflette/engine.py",
+     "        # Goes through potential schema directives and finish in self._perform_query\n",
+     "        if errors:\n            errors.append(errors[0])\n"),
+    ("skipped-field-pruned-from-cached-document", ["C16", "C15"], "tartiflette/execution/collect.py",
+     "            if not await should_include_node(execution_context, selection):\n                continue\n            fields.setdefault",
+     "            if not await should_include_node(execution_context, selection):\n                selection_set.selections = [s for s in selection_set.selections if s is not selection]\n                continue\n            fields.setdefault"),
     ("include-inverted", ["C01"], "tartiflette/directive/builtins/include.py",
      'if not directive_args["if"]:', 'if directive_args["if"] is None:'),
 ]
